@@ -480,7 +480,7 @@ var constants = []string{
 	"(a) {\n import b\n}\n(b) {\n import a\n}\nhost {\n import a\n}\n", "(a) {\n import b\n}\n(b) {\n import c\n}\n(c) {\n import a\n}\nhost {\n import b\n}\n", "import snip2.conf\nhost {\n import a\n}\n", "import snip3.conf\nhost {\n import q\n}\n", "import snipfile.conf\nhost {\n import m\n}\n",
 	"(a) {\n gzip\n header / X y\n}\nhost {\n import a\n import a\n}\n",
 	"\"", "\"\\", "\\\"", "{", "}", "{ }", "host {", "host }", "host {\n}\n}", "host {\n dir {\n}", "a, ", "a,\n", ",", "import", "import \"\"", "import a b",
-	"\xef\xbb\xbf", "\xef\xbb\xbfhost", "host\r\n{\r\n}\r\n", "{$", "{%", "{$}", "{$VA", "host {\n root {$VA}\n}", "host {\n root {$VE}\n}", "host {\n root {%VF%}\n}", "{$VH}.test {\n root {$VI}\n}", "{$VE}", "{$VUNSET}", "{%VUNSET%} {\n}", "{$VUNSET} {\n root /x\n}", "a.test, {$VUNSET} {\n}", "{$VUNSET}, b.test {\n gzip\n}", "{$VC}:80 {\n}", "{$VC} {\n}", "host \"\n\n\" {\n}", "#", "# only comment\n",
+	"\xef\xbb\xbf", "\xef\xbb\xbfhost", "host\r\n{\r\n}\r\n", "{$", "{%", "{$}", "{$VA", "host {\n root {$VA}\n}", "host {\n root {$VE}\n}", "host {\n root {%VF%}\n}", "{$VH}.test {\n root {$VI}\n}", "{$VE}", "{$VUNSET}", "{%VUNSET%} {\n}", "{$VUNSET} {\n root /x\n}", "a.test, {$VUNSET} {\n}", "{$VUNSET}, b.test {\n gzip\n}", "{$VC}:80 {\n}", "{$VC} {\n}", "host \"\n\n\" {\n}", "#", "# only comment\n", "host {\n gzip # " + strings.Repeat("c", 4094) + "\n root /x\n}", "host {\n # " + strings.Repeat("word } ", 1200) + "\n root /x\n}", "# " + strings.Repeat("x", 70000) + "\nhost {\n}",
 	"(s)", "(s) {", "(s) {\n}\n(s) {\n}\n", "import *", "import inc/*", "import inc", "import [a]*.conf", "import **", "host {\n dir { {\n } }\n}",
 	"host {\n dir a {\n  import a.conf\n }\n}", "import blk.conf\nimport blk.conf\n", "host {\n import brace.conf\n}", "host {\n import open.conf\n}", "host {\n import quote.conf\n}",
 }
